@@ -215,9 +215,10 @@ def partition_volume(volume: float, *, max_volume: Union[int, float]) -> List[fl
     step_volume = math.ceil(volume / isteps)
     if step_volume > max_volume:
         # rounding up to whole microliters must not exceed a non-integer max_volume
-        step_volume = volume / isteps
+        step_volume = min(volume / isteps, max_volume)
     volumes: List[float] = [step_volume] * (isteps - 1)
-    volumes.append(volume - numpy.sum(volumes))
+    # the remainder is capped, because floating point round-off can push it marginally above max_volume
+    volumes.append(min(volume - numpy.sum(volumes), max_volume))
     return volumes
 
 
